@@ -321,9 +321,9 @@ func (x xform) poly(p fpoly, ft string) fpoly {
 	return q
 }
 
-// scaled margin token: m * 2^k for m = 1/64
-func (x xform) marginTok() string {
-	e := x.k - 6
+// scaled margin token: 2^(k-mexp)
+func (x xform) marginTok(mexp int) string {
+	e := x.k - mexp
 	if e >= 0 {
 		return strconv.FormatInt(1<<uint(e), 10)
 	}
